@@ -85,6 +85,15 @@ def check_case(case):
     dxx_same = float(lib.libcall(fn, xa, xa))  # the same object twice
     dxx = d(x, x)
     dyy = d(y, y)
+    # the same evaluations through ONE caller buffer that is refilled in place between the calls (a re-used sample buffer):
+    # the axioms are about argument values, so these must be the very same numbers
+    buf = A(x)
+    b_xy = float(lib.libcall(fn, buf, A(y)))
+    buf[:] = A(y)
+    b_yx = float(lib.libcall(fn, buf, A(x)))
+    b_yy = float(lib.libcall(fn, buf, A(y)))
+    for lbl, got, exp in (("d(x,y)", b_xy, dxy), ("d(y,x)", b_yx, dyx), ("d(y,y)", b_yy, dyy)):
+        require(got == exp or (got != got and exp != exp), "value_independent_of_buffer_reuse:" + name, lambda: "%s through a re-used buffer = %r, with fresh arrays = %r (x=%r y=%r)" % (lbl, got, exp, x[:8], y[:8]))
     vals = {"d(x,y)": dxy, "d(y,x)": dyx, "d(x,x) same object": dxx_same, "d(x,x)": dxx, "d(y,y)": dyy}
     for k, v in vals.items():
         require(math.isfinite(v), "finite:" + name, lambda: "%s = %r for x=%r y=%r" % (k, v, x[:8], y[:8]))
